@@ -102,7 +102,18 @@ def run_check(prop: str, tier: str, rules_fn, repo: str, seed: int = 0, level: s
     os.makedirs(os.path.dirname(evidence_path), exist_ok=True)
     try:
         model = Model(repo)
-        results: List[RuleResult] = rules_fn(model, tier)
+        from .rules import generic
+        deferred_error = None
+        try:
+            results: List[RuleResult] = list(rules_fn(model, tier))
+        except AnalysisError as e:
+            # the property-specific interpreters could not decide; the package-wide ownership rules still can
+            results = []
+            deferred_error = str(e)
+        common = generic.common_rules(model, prop, tier)
+        if deferred_error is not None and not any(r.findings for r in common):
+            raise AnalysisError(deferred_error)
+        results = results + common
     except AnalysisError as e:
         print("ANALYSIS-ERROR property=%s %s" % (prop, e))
         _write_evidence(evidence_path, prop, tier, seed, level, dict(
@@ -180,6 +191,8 @@ def run_check(prop: str, tier: str, rules_fn, repo: str, seed: int = 0, level: s
         print("  " + f.short())
         print("VIOLATION property=%s replay=%s" % (prop, rp))
         rc = 1
+    if deferred_error is not None:
+        analysis_errors.append("the property-specific rules could not be decided on this tree: %s" % deferred_error)
     if analysis_errors and rc == 0:
         for a in analysis_errors:
             print("ANALYSIS-ERROR property=%s %s" % (prop, a))
